@@ -448,7 +448,7 @@ def collect_histories(chk, binary, runs, tag, timeout=180, jobs=None):
 
 
 def check_histories(chk, module, cfg, hist, tag, dev_cfgs=None, batch=150, timeout=900,
-                    crash_key=None, hang_is_violation=True):
+                    crash_key=None, hang_is_violation=True, classify=None):
     """Validate histories (list of (records, origin)) against the trace spec.  Rejected ones are
     classified with the deviation configs: dev_cfgs = {deviation_name: cfg_file}."""
     dev_cfgs = dev_cfgs or {}
@@ -475,6 +475,9 @@ def check_histories(chk, module, cfg, hist, tag, dev_cfgs=None, batch=150, timeo
             module, maxl, json.dumps(h[maxl - 1]) if 0 < maxl <= len(h) else "end")
         replay = dict(origin=o, history=h, stuck_at=maxl, spec=module, cfg=cfg,
                       explained_by_deviation=explained, invariant=viol)
+        if not explained and classify:
+            explained = classify(h, maxl)
+            replay["explained_by_signature"] = explained
         if explained:
             chk.finding_or_violation(explained, what, replay)
         else:
